@@ -9,7 +9,7 @@ RULE = ("`detect <hex>`: the bytes are written to a file and classified by viewe
         "position-tracking in-memory reader (error kind must agree with the classification; after UnknownFileFormat the reader must be back at position 0); each call "
         "runs under a 3 s watchdog (hang) and catch_unwind (panic). Lean model: is_vcd / is_fst_file (dependency, modelled from source) / is_ghw. "
         "Quick: all strings of length <= 1, length 2 over 40 bytes, length <= 4 over a 12-byte alphabet (exhaustive), every proper prefix of each format's "
-        "magic / first command, valid headers + garbage, random FST-like block chains (lengths to/beyond the end, negative, huge), seeded mutations, generated VCDs; "
+        "magic / first command, valid headers + garbage, `$` + unknown words of 1..300 bytes with non-ASCII / invalid UTF-8 bytes at every offset, random FST-like block chains (lengths to/beyond the end, negative, huge), seeded mutations, generated VCDs; "
         "`detectfile` on every corpus file (expected format = extension). non-trivial = classified as one of the three formats; distinct = distinct (request, reply)")
 
 ALPHA = [0x24, 0x20, 0x0a, 0x47, 0x48, 0x00, 0x01, 0xff, 0x65, 0x6e, 0x64, 0x76]
@@ -78,6 +78,15 @@ def requests(ctx):
         inputs.append(b" " * n + b"$date today $end\n")
         inputs.append(b"\n" * n + b"$timescale 1ns $end\n$enddefinitions $end\n#0\n")
         inputs.append(b"$comment " + b"x" * n)
+    # `$` + a long word that is no VCD command, with bytes that are not ASCII / not valid UTF-8 at every offset (an error
+    # message built from the word must not slice it at a fixed byte position)
+    for n in list(range(1, 12)) + list(range(24, 44)) + [63, 64, 65, 127, 128, 129, 300]:
+        for filler, odd in ((b"a", "é".encode()), (b"a", b"\xff"), (b"\xff", b"a"), ("é".encode(), b"b"), ("€".encode(), b"x"), ("😀".encode(), b"z")):
+            for pos in {0, 1, n // 2, max(0, n - 2), max(0, n - 1)}:
+                w = filler * pos + odd + filler * (n - pos)
+                inputs.append(b"$" + w + b" more words $end\n")
+                inputs.append(b"$" + w)
+                inputs.append(b"  $" + w + b"\n$end")
     # GHW header variants
     for i in range(9, 16):
         for v in (0, 1, 2, 3, 16, 255):
